@@ -323,8 +323,8 @@ func main() {
 
 func replay(x *ctx) {
 	var rf struct {
-		Unit string          `json:"unit"`
-		Case jsonRaw         `json:"case"`
+		Unit string  `json:"unit"`
+		Case jsonRaw `json:"case"`
 	}
 	common.ReadReplay(&rf)
 	*common.Unit = rf.Unit
